@@ -89,6 +89,8 @@ extern "C" {
 
     fn task_cancel(handle: &open_coroutine_core::net::join::JoinHandle) -> c_longlong;
 
+    fn task_drop(handle: open_coroutine_core::net::join::JoinHandle);
+
     fn task_timeout_join(
         handle: &open_coroutine_core::net::join::JoinHandle,
         ns_time: u64,
@@ -158,7 +160,17 @@ pub fn crate_task<P: 'static, R: 'static, F: FnOnce(P) -> R>(
 #[allow(missing_docs)]
 #[repr(C)]
 #[derive(Debug)]
-pub struct JoinHandle<R>(open_coroutine_core::net::join::JoinHandle, PhantomData<R>);
+pub struct JoinHandle<R>(
+    std::mem::ManuallyDrop<open_coroutine_core::net::join::JoinHandle>,
+    PhantomData<R>,
+);
+
+impl<R> Drop for JoinHandle<R> {
+    fn drop(&mut self) {
+        // release the handle inside the hook library, which owns the runtime it refers to
+        unsafe { task_drop(std::mem::ManuallyDrop::take(&mut self.0)) }
+    }
+}
 
 #[allow(missing_docs)]
 impl<R> JoinHandle<R> {
@@ -222,13 +234,14 @@ impl<R> JoinHandle<R> {
 
 impl<R> From<open_coroutine_core::net::join::JoinHandle> for JoinHandle<R> {
     fn from(val: open_coroutine_core::net::join::JoinHandle) -> Self {
-        Self(val, PhantomData)
+        Self(std::mem::ManuallyDrop::new(val), PhantomData)
     }
 }
 
 impl<R> From<JoinHandle<R>> for open_coroutine_core::net::join::JoinHandle {
     fn from(val: JoinHandle<R>) -> Self {
-        val.0
+        let mut val = std::mem::ManuallyDrop::new(val);
+        unsafe { std::mem::ManuallyDrop::take(&mut val.0) }
     }
 }
 
